@@ -1248,7 +1248,8 @@ std::optional<QByteArray> QXmppSaslClientScram::respond(const QByteArray &challe
         const QByteArray nonce = input.value('r');
         const QByteArray salt = QByteArray::fromBase64(input.value('s'));
         const int iterations = input.value('i').toInt();
-        if (!nonce.startsWith(m_nonce) || salt.isEmpty() || iterations < 1) {
+        // RFC 5802 5.1: the reserved attribute 'm' MUST cause authentication failure
+        if (input.contains('m') || !nonce.startsWith(m_nonce) || salt.isEmpty() || iterations < 1) {
             return {};
         }
 
@@ -1271,7 +1272,7 @@ std::optional<QByteArray> QXmppSaslClientScram::respond(const QByteArray &challe
     } else if (m_step == 2) {
         const QMap<char, QByteArray> input = parseGS2(challenge);
         m_step++;
-        if (QByteArray::fromBase64(input.value('v')) == m_serverSignature) {
+        if (!input.contains('m') && QByteArray::fromBase64(input.value('v')) == m_serverSignature) {
             m_serverVerified = true;
             return QByteArray();
         }
